@@ -486,3 +486,81 @@ def r19_5(prog, rep, rid="R19.5"):
             rep.broken_("rule=%s %s: no store to the tag word found" % (rid, name))
     if n < 8:
         rep.broken_("rule=%s expected >=8 instances, found %d" % (rid, n))
+
+
+def r19_6(prog, rep, rid="R19.6"):
+    """(a) membership tests split the value by the same strict `0 < x` as the assign functions (0 lives in the negative word, bit 0 of the
+    positive word is the tag); (b) a member bit destined for a 64-bit word is shifted in 64 bits; (c) when the native list is turned into a
+    bitset, the loop that re-inserts the saved members is not dead (its bound is not read from the word that was just reset)."""
+    n = 0
+    for name in ("bi31_has_bit_p", "bi63_has_bit_p"):
+        if not prog.has_fn(name):
+            continue
+        f = prog.fn(name)
+        x = f.params[1]["n"]
+        forms = set()
+        for b in f.cfg.blocks:
+            c = f.cfg.cond(b)
+            if c is None:
+                continue
+            for a in cond_atoms(c, True):
+                if len(a) == 5 and a[0] in ("<", "<=") and "0" in (a[1], a[2]) and x in (a[1], a[2]):
+                    forms.add("%s %s %s" % (a[1], a[0], a[2]))
+        n += 1
+        key = "%s/split" % name
+        if forms == {"0 < %s" % x}:
+            rep.ok(rid, key, f.loc(), "positive word is consulted for 0 < %s only, like in the assign function" % x)
+        else:
+            rep.fail(rid, key, f.loc(), "membership splits the value by %s while insertion splits by `0 < x`: the member 0 (kept in bit 0 of the "
+                     "negative word) is looked up in the positive word, whose bit 0 is the representation tag" % (sorted(forms) or "no comparison with 0"))
+    # (b) shift width
+    for f in prog.fns_in("bitint.h"):
+        if not f.cfg or not f.name.startswith(("ass_", "bi", "bui")):
+            continue
+        k = 0
+        for b, i, e, line in f.cfg.all_elems():
+            for l, kind, nn in writes(e):
+                if nn.get("k") != "bin" or nn["op"] not in ("=", "|="):
+                    continue
+                wl = nn.get("w")
+                r = nn["r"]
+                while isinstance(r, dict) and r.get("k") == "cast" and r.get("impl"):
+                    r = r["e"]
+                r = f.cfg.resolve(r)
+                while isinstance(r, dict) and r.get("k") == "cast" and r.get("impl"):
+                    r = r["e"]
+                if not (isinstance(r, dict) and r.get("k") == "bin" and r["op"] == "<<"):
+                    continue
+                k += 1
+                n += 1
+                key = "%s/shift-width#%d" % (f.name, k)
+                wr = r.get("w")
+                if wl and wr and wr < wl:
+                    rep.fail(rid, key, f.loc(nn.get("line", line)),
+                             "a member bit for the %d-bit word %s is computed as `%s` in %d bits: shift amounts of %d and more wrap, the member is filed "
+                             "under a different value" % (wl, lv(l), show(r)[:40], wr, wr))
+                else:
+                    rep.ok(rid, key, f.loc(nn.get("line", line)), "`%s` is evaluated in the width of %s" % (show(r)[:40], lv(l)))
+    # (c) degrade loop alive
+    for name, bs in (("ass_bi383", "ass_bs383"), ("ass_bi447", "ass_bs447")):
+        f = prog.fn(name)
+        cfg = f.cfg
+        bi = f.params[0]["n"]
+        loops = cfg.natural_loops()
+        inloop = [(b, i) for b, i, c, line in f.all_calls() if c.get("fn") == bs and any(b in blks for blks in loops.values())]
+        n += 1
+        key = "%s/degrade-loop-alive" % name
+        if not inloop:
+            rep.fail(rid, key, f.loc(), "%s() no longer re-inserts the natively stored members in a loop when it switches to the bitset" % name)
+            continue
+        counters = {lv(l) for b, i, x, line in cfg.all_elems() for l, kind, nn in writes(x) if kind == "incdec"}
+        w = AbsWalk(f, {"*%s->pos" % bi} | counters, max_states=20000, widen=40)
+        w.run()
+        vis = {s_[0] for s_ in w.visited}
+        if all(b in vis for b, i in inloop):
+            rep.ok(rid, key, f.loc(), "the loop that re-inserts the saved members is reachable after the reset of the word")
+        else:
+            rep.fail(rid, key, f.loc(), "after the tag word has been reset the bound of the re-insertion loop evaluates to 0: the loop body is dead, all "
+                     "natively stored members are dropped when the container switches to the bitset")
+    if n < 8:
+        rep.broken_("rule=%s expected >=8 instances, found %d" % (rid, n))
